@@ -1,5 +1,6 @@
 import BitbybitModel.Lemmas.ParseOk
 import BitbybitModel.Lemmas.Render
+import BitbybitModel.Lemmas.Literal
 /-!
 # C09 — a bitfield declaration compiles iff every field fits its type and the base
 
@@ -330,6 +331,26 @@ theorem contentOf_pos (a : AttrSpec) (hord : ∀ r ∈ a.ranges, r.short = false
   cases hs : r.short
   · have := hord r hr hs; simp; omega
   · simp
+
+/-- **text level.** The tokens `RangeSpec.toks` / `strideToks` of the token-level theorem are what the macro sees for
+    numbers *written in decimal*: `parse_literal_number` applies `str::parse::<usize>` to the literal's text, and for the
+    decimal text of `n < 2^64` that is `n` (`parseUsize_repr`). Hex, octal, binary, suffixed or `_`-separated literals
+    and numbers `≥ 2^64` are `.lit none` — "not a number" for the macro — which the executable model shares with the
+    lexer of the correspondence driver (`Tok.ofLiteralText`). -/
+theorem range_tokens_from_text (r : RangeSpec) (hlo : r.lo < 2 ^ 64) (hhi : r.hi < 2 ^ 64) :
+    r.toks = if r.short then [Tok.ofLiteralText (Nat.repr r.lo)]
+             else [Tok.ofLiteralText (Nat.repr r.lo), .punct '.', .punct '.', .punct '=', Tok.ofLiteralText (Nat.repr r.hi)] := by
+  unfold RangeSpec.toks
+  rw [Tok.ofLiteralText_repr r.lo hlo, Tok.ofLiteralText_repr r.hi hhi]
+
+theorem stride_tokens_from_text (s : Nat) (hs : s < 2 ^ 64) :
+    strideToks (some s) = [.punct ',', .ident "stride", .punct '=', Tok.ofLiteralText (Nat.repr s)] := by
+  unfold strideToks
+  rw [Tok.ofLiteralText_repr s hs]
+
+/-- a literal too large for `usize` is not a number (so `bits(0..=18446744073709551616)` is rejected, not wrapped) -/
+theorem huge_literal_not_a_number (n : Nat) (h : 2 ^ 64 ≤ n) : Tok.ofLiteralText (Nat.repr n) = .lit none :=
+  Tok.ofLiteralText_repr_large n h
 
 /-- **C09 at the token level.** A field declared with a supported type and a well-formed `bit` / `bits` attribute is
     accepted by the macro exactly when no range is reversed, a stride is only given for an array, and the rule set
